@@ -6,13 +6,16 @@ from gen import G, Z, sx, ohg_types, lohg_types, BACKENDS
 import os
 QUICK_SCALE = int(os.environ.get("VERIF_QUICK_SCALE", "6"))
 ESCALATE = int(os.environ.get("VERIF_ESCALATE", "2"))
+THOROUGH_SCALE = int(os.environ.get("VERIF_THOROUGH_SCALE", "3"))
 
 
 def N(tier, quick, thorough):
     # the quick tier runs QUICK_SCALE times the base number of random iterations (a case costs about a millisecond)
     if tier == "escalated":     # the source differs from the fingerprint: the largest random stream
         return thorough * ESCALATE
-    return min(quick * QUICK_SCALE, thorough) if tier == "quick" else thorough
+    if tier == "quick":
+        return min(quick * QUICK_SCALE, thorough)
+    return thorough * THOROUGH_SCALE
 
 
 def mutate_list(g, l, hi):
